@@ -268,6 +268,8 @@ func checkC07(c *Ctx) {
 		call   *ssa.Call
 		format string
 		ops    []ssa.Value
+		where  string    // for texts put together by concatenation: the function
+		pos    token.Pos // and the position of the expression
 	}
 	var tpls []tpl
 	for _, fn := range funcs {
@@ -292,7 +294,42 @@ func checkC07(c *Ctx) {
 				if packed != nil {
 					ops = variadicOperands(packed)
 				}
-				tpls = append(tpls, tpl{fn, call, format, ops})
+				tpls = append(tpls, tpl{fn: fn, call: call, format: format, ops: ops})
+			}
+		}
+	}
+	// texts put together by concatenation are templates as well: constant pieces with a hole for every other operand
+	// (the same text may be written with Sprintf in one version of the code and with + in the next)
+	if genPk := p.Pkg("internal/generator"); genPk != nil {
+		for _, f := range genPk.Syntax {
+			for _, d := range f.Decls {
+				fd, ok := d.(*ast.FuncDecl)
+				if !ok || fd.Body == nil {
+					continue
+				}
+				seenText := map[string]bool{}
+				proto := &symWalker{Inline: func(*types.Func) bool { return false }}
+				proto.OnText = func(w *symWalker, at ast.Expr, text *Sym) {
+					if _, isConcat := at.(*ast.BinaryExpr); !isConcat || w.depth != 0 || text == nil || text.K != symConcat {
+						return
+					}
+					var b strings.Builder
+					holes := 0
+					for _, part := range text.Parts {
+						if cs, ok := part.ConstString(); ok {
+							b.WriteString(strings.ReplaceAll(cs, "%", "%%"))
+						} else {
+							b.WriteString("%s")
+							holes++
+						}
+					}
+					if holes == 0 || seenText[b.String()] {
+						return
+					}
+					seenText[b.String()] = true
+					tpls = append(tpls, tpl{format: b.String(), where: relOf(genPk) + "." + fd.Name.Name, pos: at.Pos()})
+				}
+				p.SymWalk(genPk, fd, proto, nil)
 			}
 		}
 	}
@@ -330,7 +367,11 @@ func checkC07(c *Ctx) {
 			continue // texts of Go errors / report messages, not Rego
 		}
 		holes, _ := scanFormat(t.format, ctxCode)
-		key := ord.next(FuncKey(t.fn) + "#" + shortFormat(t.format))
+		where, at := t.where, t.pos
+		if t.fn != nil {
+			where, at = FuncKey(t.fn), t.call.Pos()
+		}
+		key := ord.next(where + "#" + shortFormat(t.format))
 		// operator holes: code-position %s surrounded by spaces whose operand resolves to a small constant set
 		choices := []map[int]string{{}}
 		for hi, h := range holes {
@@ -379,9 +420,9 @@ func checkC07(c *Ctx) {
 			if i := strings.Index(msg, "\n"); i > 0 {
 				msg = msg[:i]
 			}
-			r.Bad("C07.H4", key, p.Pos(t.call.Pos()), fmt.Sprintf("the template does not parse as Rego when instantiated as `%s`: %s", strings.ReplaceAll(badInst, "\n", "\\n"), msg))
+			r.Bad("C07.H4", key, p.Pos(at), fmt.Sprintf("the template does not parse as Rego when instantiated as `%s`: %s", strings.ReplaceAll(badInst, "\n", "\\n"), msg))
 		} else {
-			r.OK("C07.H4", key, p.Pos(t.call.Pos()), fmt.Sprintf("parses in %d instantiation(s)", len(choices)))
+			r.OK("C07.H4", key, p.Pos(at), fmt.Sprintf("parses in %d instantiation(s)", len(choices)))
 		}
 	}
 	for line, pos := range constLines {
